@@ -33,6 +33,7 @@ const (
 	hFaithful
 	hInitCorrupt
 	hThirdParty // traffic of a registered third-party agent type (Service block), faithful or mutated
+	hHugeBitmap // a screenshot whose bitmap header announces dimensions its data cannot hold
 	hKinds
 )
 
@@ -425,6 +426,20 @@ func (st *c01State) build(a Action) (body []byte, invalid bool, label string) {
 	}
 	d := direct[a.B%len(direct)]
 	switch a.A % hKinds {
+	case hHugeBitmap:
+		bmp := world.TinyBMP(1, 2, 3)
+		dims := [][2]uint32{{0x7fffffff, 0x7fffffff}, {0x7fffffff, 0x7ffffff0}, {0, 1}, {0x80000000, 0x80000000}, {0xffffffff, 1}, {3000, 3000}, {0x40000000, 0x40000000}, {0x7fffffff, 0x40000001}}[r.Intn(8)]
+		// (nothing in between: a decoder that believes a header announcing some ten thousand pixels
+		// a side, or 2^31 by 1, allocates gigabytes - in the checking process as well)
+		binary.LittleEndian.PutUint32(bmp[18:], dims[0])
+		binary.LittleEndian.PutUint32(bmp[22:], dims[1])
+		if r.Intn(3) == 0 {
+			binary.LittleEndian.PutUint16(bmp[28:], []uint16{1, 8, 32, 0, 64}[r.Intn(5)])
+		}
+		var pb world.PB
+		pb.Int32(1).Bytes(bmp)
+		rid := st.outstanding(d)
+		return d.Frame([]world.Pkg{{Cmd: world.CmdScreenshot, RID: rid, Body: pb.B}}), false, "huge-bitmap"
 	case hThirdParty:
 		if st.svc == nil {
 			b := randBytes(r, 24)
